@@ -44,60 +44,60 @@ theorem PLvec_length : ∀ (a b : List Rat) (k : LV) (us : List (Rat → Rat)), 
   | _ :: _, _ :: _, [], _, h => by simp [PLvec] at h
   | _ :: _, _ :: _, _ :: _, [], h => by simp [PLvec] at h
 
-theorem meshAxes_length (bd : Bool) : ∀ (a b : List Rat) (l : LV), a.length = l.length → b.length = l.length →
+theorem meshAxes_length : ∀ (bd : Flags) (a b : List Rat) (l : LV), a.length = l.length → b.length = l.length →
     (meshAxes a b l bd).length = l.length
-  | [], [], [], _, _ => rfl
-  | a :: as, b :: bs, l :: ls, ha, hb => by
-      simp [meshAxes, meshAxes_length bd as bs ls (by simpa using ha) (by simpa using hb)]
-  | [], _ :: _, [], _, hb => by simp at hb
-  | _ :: _, _, [], ha, _ => by simp at ha
-  | [], _, _ :: _, ha, _ => by simp at ha
-  | _ :: _, [], _ :: _, _, hb => by simp at hb
+  | bd, [], [], [], _, _ => rfl
+  | bd, a :: as, b :: bs, l :: ls, ha, hb => by
+      simp [meshAxes, meshAxes_length bd.tl as bs ls (by simpa using ha) (by simpa using hb)]
+  | bd, [], _ :: _, [], _, hb => by simp at hb
+  | bd, _ :: _, _, [], ha, _ => by simp at ha
+  | bd, [], _, _ :: _, ha, _ => by simp at ha
+  | bd, _ :: _, [], _ :: _, _, hb => by simp at hb
 
 /-- on the mesh of the level `k` of `u` the product of the 1-D interpolants is `u` -/
-theorem interpProd_self (bd : Bool) : ∀ (a b : List Rat) (k : LV) (us : List (Rat → Rat)) (x : List Rat),
+theorem interpProd_self : ∀ (bd : Flags) (a b : List Rat) (k : LV) (us : List (Rat → Rat)) (x : List Rat),
     BoxOK a b → PLvec a b k us → InBox a b x → interpProd (meshAxes a b k bd) us x = tprod us x
-  | [], [], [], [], [], _, _, _ => rfl
-  | a :: as, b :: bs, k :: ks, u :: us, x :: xs, hab, hu, hx => by
+  | bd, [], [], [], [], [], _, _, _ => rfl
+  | bd, a :: as, b :: bs, k :: ks, u :: us, x :: xs, hab, hu, hx => by
       simp only [meshAxes, interpProd, tprod]
-      rw [interp1_PL a b hab.1 (le_refl _) bd hu.1 x hx.1 hx.2.1,
-        interpProd_self bd as bs ks us xs hab.2 hu.2 hx.2.2]
-  | [], [], [], [], _ :: _, _, _, hx => by simp [InBox] at hx
-  | _ :: _, _ :: _, _, _, [], _, _, hx => by simp [InBox] at hx
-  | [], _ :: _, _, _, _, hab, _, _ => by simp [BoxOK] at hab
-  | _ :: _, [], _, _, _, hab, _, _ => by simp [BoxOK] at hab
-  | [], [], _ :: _, _, _, _, hu, _ => by simp [PLvec] at hu
-  | [], [], [], _ :: _, _, _, hu, _ => by simp [PLvec] at hu
-  | _ :: _, _ :: _, [], _, _, _, hu, _ => by simp [PLvec] at hu
-  | _ :: _, _ :: _, _ :: _, [], _, _, hu, _ => by simp [PLvec] at hu
+      rw [interp1_PL a b hab.1 (le_refl _) (bd 0) hu.1 x hx.1 hx.2.1,
+        interpProd_self bd.tl as bs ks us xs hab.2 hu.2 hx.2.2]
+  | bd, [], [], [], [], _ :: _, _, _, hx => by simp [InBox] at hx
+  | bd, _ :: _, _ :: _, _, _, [], _, _, hx => by simp [InBox] at hx
+  | bd, [], _ :: _, _, _, _, hab, _, _ => by simp [BoxOK] at hab
+  | bd, _ :: _, [], _, _, _, hab, _, _ => by simp [BoxOK] at hab
+  | bd, [], [], _ :: _, _, _, _, hu, _ => by simp [PLvec] at hu
+  | bd, [], [], [], _ :: _, _, _, hu, _ => by simp [PLvec] at hu
+  | bd, _ :: _, _ :: _, [], _, _, _, hu, _ => by simp [PLvec] at hu
+  | bd, _ :: _, _ :: _, _ :: _, [], _, _, hu, _ => by simp [PLvec] at hu
 
 /-- the product of the 1-D interpolants of `u` (of level `k`) does not change when `l` is replaced by `l ⊓ k` -/
-theorem interpProd_meet (bd : Bool) : ∀ (a b : List Rat) (l k : LV) (us : List (Rat → Rat)) (x : List Rat),
+theorem interpProd_meet : ∀ (bd : Flags) (a b : List Rat) (l k : LV) (us : List (Rat → Rat)) (x : List Rat),
     BoxOK a b → PLvec a b k us → InBox a b x → l.length = k.length →
     interpProd (meshAxes a b l bd) us x = interpProd (meshAxes a b (meet l k) bd) us x
-  | [], [], [], [], [], [], _, _, _, _ => rfl
-  | a :: as, b :: bs, l :: ls, k :: ks, u :: us, x :: xs, hab, hu, hx, hl => by
+  | bd, [], [], [], [], [], [], _, _, _, _ => rfl
+  | bd, a :: as, b :: bs, l :: ls, k :: ks, u :: us, x :: xs, hab, hu, hx, hl => by
       simp only [meet_cons, meshAxes, interpProd]
-      rw [interpProd_meet bd as bs ls ks us xs hab.2 hu.2 hx.2.2 (by simpa using hl)]
+      rw [interpProd_meet bd.tl as bs ls ks us xs hab.2 hu.2 hx.2.2 (by simpa using hl)]
       congr 1
       by_cases hkl : k ≤ l
       · have hmin : min l k = k := by omega
-        rw [hmin, interp1_PL a b hab.1 (Int.toNat_le_toNat hkl) bd hu.1 x hx.1 hx.2.1,
-          interp1_PL a b hab.1 (le_refl _) bd hu.1 x hx.1 hx.2.1]
+        rw [hmin, interp1_PL a b hab.1 (Int.toNat_le_toNat hkl) (bd 0) hu.1 x hx.1 hx.2.1,
+          interp1_PL a b hab.1 (le_refl _) (bd 0) hu.1 x hx.1 hx.2.1]
       · have hmin : min l k = l := by omega
         rw [hmin]
-  | [], [], _ :: _, [], _, _, _, _, _, hl => by simp at hl
-  | [], [], [], _ :: _, _, _, _, _, _, hl => by simp at hl
-  | _, _, _ :: _, [], _, _, _, _, _, hl => by simp at hl
-  | _, _, [], _ :: _, _, _, _, _, _, hl => by simp at hl
-  | [], _ :: _, _, _, _, _, hab, _, _, _ => by simp [BoxOK] at hab
-  | _ :: _, [], _, _, _, _, hab, _, _, _ => by simp [BoxOK] at hab
-  | [], [], [], [], _ :: _, _, _, hu, _, _ => by simp [PLvec] at hu
-  | [], [], _ :: _, _ :: _, _, _, _, hu, _, _ => by simp [PLvec] at hu
-  | _ :: _, _ :: _, [], [], _, _, _, hu, _, _ => by simp [PLvec] at hu
-  | _ :: _, _ :: _, _ :: _, _ :: _, [], _, _, hu, _, _ => by simp [PLvec] at hu
-  | [], [], [], [], [], _ :: _, _, _, hx, _ => by simp [InBox] at hx
-  | _ :: _, _ :: _, _ :: _, _ :: _, _ :: _, [], _, _, hx, _ => by simp [InBox] at hx
+  | bd, [], [], _ :: _, [], _, _, _, _, _, hl => by simp at hl
+  | bd, [], [], [], _ :: _, _, _, _, _, _, hl => by simp at hl
+  | bd, _, _, _ :: _, [], _, _, _, _, _, hl => by simp at hl
+  | bd, _, _, [], _ :: _, _, _, _, _, _, hl => by simp at hl
+  | bd, [], _ :: _, _, _, _, _, hab, _, _, _ => by simp [BoxOK] at hab
+  | bd, _ :: _, [], _, _, _, _, hab, _, _, _ => by simp [BoxOK] at hab
+  | bd, [], [], [], [], _ :: _, _, _, hu, _, _ => by simp [PLvec] at hu
+  | bd, [], [], _ :: _, _ :: _, _, _, _, hu, _, _ => by simp [PLvec] at hu
+  | bd, _ :: _, _ :: _, [], [], _, _, _, hu, _, _ => by simp [PLvec] at hu
+  | bd, _ :: _, _ :: _, _ :: _, _ :: _, [], _, _, hu, _, _ => by simp [PLvec] at hu
+  | bd, [], [], [], [], [], _ :: _, _, _, hx, _ => by simp [InBox] at hx
+  | bd, _ :: _, _ :: _, _ :: _, _ :: _, _ :: _, [], _, _, hx, _ => by simp [InBox] at hx
 
 section
 variable {dim : Nat} {lmin : Int} {c : List (LV × Int)} {J : LV → Prop} [DecidablePred J]
@@ -107,7 +107,7 @@ interpolant is `u` at EVERY point of the box.  `hmv`: on the meshes of the retur
 values of `u` (always true with boundary points; without them it says that `u` vanishes where `points_not_zero`
 declares a boundary point). -/
 theorem valid_pl_interp (hv : ValidScheme dim lmin c J) (a b : List Rat) (hab : BoxOK a b) (ha : a.length = dim)
-    (bd : Bool) (k : LV) (hkJ : J k) (us : List (Rat → Rat)) (hus : PLvec a b k us) (x : List Rat) (hx : InBox a b x)
+    (bd : Flags) (k : LV) (hkJ : J k) (us : List (Rat → Rat)) (hus : PLvec a b k us) (x : List Rat) (hx : InBox a b x)
     (hmv : ∀ p ∈ c, ∀ q ∈ cross (meshAxes a b p.1 bd), meshVal a b bd (tprod us) q = tprod us q) :
     combiInterp a b bd c (tprod us) x = tprod us x := by
   have hb : b.length = dim := by rw [← BoxOK_length a b hab]; exact ha
@@ -132,41 +132,38 @@ theorem valid_pl_interp (hv : ValidScheme dim lmin c J) (a b : List Rat) (hab : 
 
 end
 
-theorem meshVal_boundary (a b : List Rat) (f : List Rat → Rat) (q : List Rat) : meshVal a b true f q = f q := by
-  simp [meshVal, pointNotZero]
-
 /-! ## integration -/
 
 /-- every `u_i` vanishes at the ends of `[a_i, b_i]` when boundary points are off -/
-def ZeroEndsVec (bd : Bool) : List Rat → List Rat → List (Rat → Rat) → Prop
-  | [], [], [] => True
-  | a :: as, b :: bs, u :: us => ZeroEnds a b bd u ∧ ZeroEndsVec bd as bs us
-  | _, _, _ => False
+def ZeroEndsVec : Flags → List Rat → List Rat → List (Rat → Rat) → Prop
+  | _, [], [], [] => True
+  | bd, a :: as, b :: bs, u :: us => ZeroEnds a b (bd 0) u ∧ ZeroEndsVec bd.tl as bs us
+  | _, _, _, _ => False
 
 /-- the product of the 1-D rules of `u` (of level `k`) does not change when `l` is replaced by `l ⊓ k` -/
-theorem trapProd_meet (bd : Bool) : ∀ (a b : List Rat) (l k : LV) (us : List (Rat → Rat)),
+theorem trapProd_meet : ∀ (bd : Flags) (a b : List Rat) (l k : LV) (us : List (Rat → Rat)),
     BoxOK a b → PLvec a b k us → ZeroEndsVec bd a b us → l.length = k.length →
     trapProd bd a b l us = trapProd bd a b (meet l k) us
-  | [], [], [], [], [], _, _, _, _ => rfl
-  | a :: as, b :: bs, l :: ls, k :: ks, u :: us, hab, hu, hz, hl => by
+  | bd, [], [], [], [], [], _, _, _, _ => rfl
+  | bd, a :: as, b :: bs, l :: ls, k :: ks, u :: us, hab, hu, hz, hl => by
       simp only [meet_cons, trapProd]
-      rw [trapProd_meet bd as bs ls ks us hab.2 hu.2 hz.2 (by simpa using hl)]
+      rw [trapProd_meet bd.tl as bs ls ks us hab.2 hu.2 hz.2 (by simpa using hl)]
       congr 1
       by_cases hkl : k ≤ l
       · have hmin : min l k = k := by omega
-        rw [hmin, trap1_PL a b hab.1 (Int.toNat_le_toNat hkl) bd hu.1 hz.1]
+        rw [hmin, trap1_PL a b hab.1 (Int.toNat_le_toNat hkl) (bd 0) hu.1 hz.1]
       · have hmin : min l k = l := by omega
         rw [hmin]
-  | [], [], _ :: _, [], _, _, _, _, hl => by simp at hl
-  | [], [], [], _ :: _, _, _, _, _, hl => by simp at hl
-  | _, _, _ :: _, [], _, _, _, _, hl => by simp at hl
-  | _, _, [], _ :: _, _, _, _, _, hl => by simp at hl
-  | [], _ :: _, _, _, _, hab, _, _, _ => by simp [BoxOK] at hab
-  | _ :: _, [], _, _, _, hab, _, _, _ => by simp [BoxOK] at hab
-  | [], [], [], [], _ :: _, _, hu, _, _ => by simp [PLvec] at hu
-  | [], [], _ :: _, _ :: _, _, _, hu, _, _ => by simp [PLvec] at hu
-  | _ :: _, _ :: _, [], [], _, _, hu, _, _ => by simp [PLvec] at hu
-  | _ :: _, _ :: _, _ :: _, _ :: _, [], _, hu, _, _ => by simp [PLvec] at hu
+  | bd, [], [], _ :: _, [], _, _, _, _, hl => by simp at hl
+  | bd, [], [], [], _ :: _, _, _, _, _, hl => by simp at hl
+  | bd, _, _, _ :: _, [], _, _, _, _, hl => by simp at hl
+  | bd, _, _, [], _ :: _, _, _, _, _, hl => by simp at hl
+  | bd, [], _ :: _, _, _, _, hab, _, _, _ => by simp [BoxOK] at hab
+  | bd, _ :: _, [], _, _, _, hab, _, _, _ => by simp [BoxOK] at hab
+  | bd, [], [], [], [], _ :: _, _, hu, _, _ => by simp [PLvec] at hu
+  | bd, [], [], _ :: _, _ :: _, _, _, hu, _, _ => by simp [PLvec] at hu
+  | bd, _ :: _, _ :: _, [], [], _, _, hu, _, _ => by simp [PLvec] at hu
+  | bd, _ :: _, _ :: _, _ :: _, _ :: _, [], _, hu, _, _ => by simp [PLvec] at hu
 
 section
 variable {dim : Nat} {lmin : Int} {c : List (LV × Int)} {J : LV → Prop} [DecidablePred J]
@@ -175,7 +172,7 @@ variable {dim : Nat} {lmin : Int} {c : List (LV × Int)} {J : LV → Prop} [Deci
 ends when boundary points are off), the combined integral is the product of the level-`k_i` trapezoidal values of the
 `u_i`, i.e. (`trap1_eq_cellSum`) of the sums of their cell trapezoids = the exact integral of `u`. -/
 theorem valid_pl_integral (hv : ValidScheme dim lmin c J) (a b : List Rat) (hab : BoxOK a b) (ha : a.length = dim)
-    (bd : Bool) (k : LV) (hkJ : J k) (us : List (Rat → Rat)) (hus : PLvec a b k us) (hz : ZeroEndsVec bd a b us) :
+    (bd : Flags) (k : LV) (hkJ : J k) (us : List (Rat → Rat)) (hus : PLvec a b k us) (hz : ZeroEndsVec bd a b us) :
     combiIntegral a b bd c (tprod us) = trapProd bd a b k us := by
   have hb : b.length = dim := by rw [← BoxOK_length a b hab]; exact ha
   obtain ⟨hk1, hk2⟩ := hv.jshape k hkJ
@@ -193,44 +190,41 @@ theorem valid_pl_integral (hv : ValidScheme dim lmin c J) (a b : List Rat) (hab 
 
 end
 
-/-! ## the mesh values of a function vanishing on the boundary -/
+/-! ## the mesh values of a function vanishing on the excluded boundary -/
 
-/-- some coordinate of `q` is an end of its interval -/
-def OnBoundary : List Rat → List Rat → List Rat → Prop
-  | a :: as, b :: bs, q :: qs => q = a ∨ q = b ∨ OnBoundary as bs qs
-  | _, _, _ => False
+/-- some coordinate of `q`, in a dimension WITHOUT boundary points, is an end of its interval -/
+def OnBoundary : Flags → List Rat → List Rat → List Rat → Prop
+  | bd, a :: as, b :: bs, q :: qs => (bd 0 = false ∧ (q = a ∨ q = b)) ∨ OnBoundary bd.tl as bs qs
+  | _, _, _, _ => False
 
-/-- `points_not_zero` only fires on true boundary points of the meshes of the returned grids (proved for all levels
-`≤ 39` in `noFalseBoundary_of_levels`: the tolerance is `1e-12` of the width, the mesh width is `2^-l` of it) -/
-def NoFalseBoundary (a b : List Rat) (c : List (LV × Int)) : Prop :=
-  ∀ p ∈ c, ∀ q ∈ cross (meshAxes a b p.1 false), pointNotZero a b false q = false → OnBoundary a b q
+/-- `points_not_zero` only fires on points of the excluded boundary, on the meshes of the returned grids -/
+def NoFalseBoundary (a b : List Rat) (bd : Flags) (c : List (LV × Int)) : Prop :=
+  ∀ p ∈ c, ∀ q ∈ cross (meshAxes a b p.1 bd), pointNotZero a b bd q = false → OnBoundary bd a b q
 
-theorem tprod_onBoundary : ∀ (a b : List Rat) (us : List (Rat → Rat)) (q : List Rat),
-    ZeroEndsVec false a b us → OnBoundary a b q → tprod us q = 0
-  | a :: as, b :: bs, u :: us, q :: qs, hz, hq => by
+theorem tprod_onBoundary : ∀ (bd : Flags) (a b : List Rat) (us : List (Rat → Rat)) (q : List Rat),
+    ZeroEndsVec bd a b us → OnBoundary bd a b q → tprod us q = 0
+  | bd, a :: as, b :: bs, u :: us, q :: qs, hz, hq => by
       unfold tprod
-      rcases hq with rfl | rfl | hq
-      · rw [(hz.1 rfl).1]; ring
-      · rw [(hz.1 rfl).2]; ring
-      · rw [tprod_onBoundary as bs us qs hz.2 hq]; ring
-  | [], _, _, _, _, hq => by simp [OnBoundary] at hq
-  | _ :: _, [], _, _, _, hq => by simp [OnBoundary] at hq
-  | _ :: _, _ :: _, _, [], _, hq => by simp [OnBoundary] at hq
-  | _ :: _, _ :: _, [], _ :: _, hz, _ => by simp [ZeroEndsVec] at hz
+      rcases hq with ⟨hbd, rfl | rfl⟩ | hq
+      · rw [(hz.1 hbd).1]; ring
+      · rw [(hz.1 hbd).2]; ring
+      · rw [tprod_onBoundary bd.tl as bs us qs hz.2 hq]; ring
+  | _, [], _, _, _, _, hq => by simp [OnBoundary] at hq
+  | _, _ :: _, [], _, _, _, hq => by simp [OnBoundary] at hq
+  | _, _ :: _, _ :: _, _, [], _, hq => by simp [OnBoundary] at hq
+  | _, _ :: _, _ :: _, [], _ :: _, hz, _ => by simp [ZeroEndsVec] at hz
 
-/-- the hypothesis `hmv` of `valid_pl_interp`: free with boundary points; without them it follows from
-`NoFalseBoundary` for functions vanishing at the ends -/
-theorem hmv_of_noFalseBoundary (a b : List Rat) (bd : Bool) (c : List (LV × Int)) (us : List (Rat → Rat))
-    (hz : ZeroEndsVec bd a b us) (hsep : bd = false → NoFalseBoundary a b c) :
+/-- the hypothesis `hmv` of `valid_pl_interp` follows from `NoFalseBoundary` for functions vanishing at the ends of the
+dimensions without boundary points -/
+theorem hmv_of_noFalseBoundary (a b : List Rat) (bd : Flags) (c : List (LV × Int)) (us : List (Rat → Rat))
+    (hz : ZeroEndsVec bd a b us) (hsep : NoFalseBoundary a b bd c) :
     ∀ p ∈ c, ∀ q ∈ cross (meshAxes a b p.1 bd), meshVal a b bd (tprod us) q = tprod us q := by
   intro p hp q hq
-  cases bd
-  · unfold meshVal
-    split
-    · rfl
-    · rename_i hnz
-      exact (tprod_onBoundary a b us q hz (hsep rfl p hp q hq (by simpa using hnz))).symm
-  · exact meshVal_boundary a b _ q
+  unfold meshVal
+  split
+  · rfl
+  · rename_i hnz
+    exact (tprod_onBoundary bd a b us q hz (hsep p hp q hq (by simpa using hnz))).symm
 
 /-! ## the boundary test of the repaired `points_not_zero` on the level meshes -/
 
@@ -297,86 +291,94 @@ theorem nearEnd_mesh_hi (a b : Rat) (hab : a < b) (l : Nat) (hl : l ≤ 39) (q :
   · have : i = 2 ^ l := by omega
     rw [this]; exact linPt_last a b _ hn
 
-theorem anyNear_lo_onBoundary : ∀ (a b : List Rat) (l : LV) (q : List Rat), BoxOK a b →
-    InAxes (meshAxes a b l false) q → (∀ x ∈ l, x ≤ 39) → anyNear q a a b = true → OnBoundary a b q
-  | a :: as, b :: bs, l :: ls, q :: qs, hab, hq, hl, h => by
+theorem anyNearOff_lo_onBoundary : ∀ (bd : Flags) (a b : List Rat) (l : LV) (q : List Rat), BoxOK a b →
+    InAxes (meshAxes a b l bd) q → (∀ x ∈ l, x ≤ 39) → anyNearOff bd q a a b = true → OnBoundary bd a b q
+  | bd, a :: as, b :: bs, l :: ls, q :: qs, hab, hq, hl, h => by
       simp only [meshAxes, InAxes] at hq
-      simp only [anyNear, Bool.or_eq_true] at h
+      simp only [anyNearOff, Bool.or_eq_true, Bool.and_eq_true, Bool.not_eq_true'] at h
       have hl0 : l.toNat ≤ 39 := by have := hl l (List.mem_cons_self ..); omega
-      rcases h with h | h
-      · exact Or.inl (nearEnd_mesh_lo a b hab.1 _ hl0 q hq.1 h)
-      · exact Or.inr (Or.inr (anyNear_lo_onBoundary as bs ls qs hab.2 hq.2
-          (fun x hx => hl x (List.mem_cons_of_mem _ hx)) h))
-  | [], _, _, _, _, _, _, h => by simp [anyNear] at h
-  | _ :: _, [], _, _, hab, _, _, _ => by simp [BoxOK] at hab
-  | _ :: _, _ :: _, [], _, _, hq, _, h => by
-      cases ‹List Rat› <;> simp [meshAxes, InAxes, anyNear] at hq h
-  | _ :: _, _ :: _, _ :: _, [], _, _, _, h => by simp [anyNear] at h
+      rcases h with ⟨hbd, h⟩ | h
+      · have hq1 := hq.1
+        rw [hbd] at hq1
+        exact Or.inl ⟨hbd, Or.inl (nearEnd_mesh_lo a b hab.1 _ hl0 q hq1 h)⟩
+      · exact Or.inr (anyNearOff_lo_onBoundary bd.tl as bs ls qs hab.2 hq.2
+          (fun x hx => hl x (List.mem_cons_of_mem _ hx)) h)
+  | _, [], _, _, _, _, _, _, h => by simp [anyNearOff] at h
+  | _, _ :: _, [], _, _, hab, _, _, _ => by simp [BoxOK] at hab
+  | _, _ :: _, _ :: _, [], q, _, hq, _, h => by
+      cases q <;> simp [meshAxes, InAxes, anyNearOff] at hq h
+  | _, _ :: _, _ :: _, _ :: _, [], _, _, _, h => by simp [anyNearOff] at h
 
-theorem anyNear_hi_onBoundary : ∀ (a b : List Rat) (l : LV) (q : List Rat), BoxOK a b →
-    InAxes (meshAxes a b l false) q → (∀ x ∈ l, x ≤ 39) → anyNear q b a b = true → OnBoundary a b q
-  | a :: as, b :: bs, l :: ls, q :: qs, hab, hq, hl, h => by
+theorem anyNearOff_hi_onBoundary : ∀ (bd : Flags) (a b : List Rat) (l : LV) (q : List Rat), BoxOK a b →
+    InAxes (meshAxes a b l bd) q → (∀ x ∈ l, x ≤ 39) → anyNearOff bd q b a b = true → OnBoundary bd a b q
+  | bd, a :: as, b :: bs, l :: ls, q :: qs, hab, hq, hl, h => by
       simp only [meshAxes, InAxes] at hq
-      simp only [anyNear, Bool.or_eq_true] at h
+      simp only [anyNearOff, Bool.or_eq_true, Bool.and_eq_true, Bool.not_eq_true'] at h
       have hl0 : l.toNat ≤ 39 := by have := hl l (List.mem_cons_self ..); omega
-      rcases h with h | h
-      · exact Or.inr (Or.inl (nearEnd_mesh_hi a b hab.1 _ hl0 q hq.1 h))
-      · exact Or.inr (Or.inr (anyNear_hi_onBoundary as bs ls qs hab.2 hq.2
-          (fun x hx => hl x (List.mem_cons_of_mem _ hx)) h))
-  | [], _, _, _, hab, _, _, h => by
-      cases ‹List Rat› <;> simp [anyNear] at h hab
-  | _ :: _, [], _, _, hab, _, _, _ => by simp [BoxOK] at hab
-  | _ :: _, _ :: _, [], _, _, hq, _, h => by
-      cases ‹List Rat› <;> simp [meshAxes, InAxes, anyNear] at hq h
-  | _ :: _, _ :: _, _ :: _, [], _, _, _, h => by simp [anyNear] at h
+      rcases h with ⟨hbd, h⟩ | h
+      · have hq1 := hq.1
+        rw [hbd] at hq1
+        exact Or.inl ⟨hbd, Or.inr (nearEnd_mesh_hi a b hab.1 _ hl0 q hq1 h)⟩
+      · exact Or.inr (anyNearOff_hi_onBoundary bd.tl as bs ls qs hab.2 hq.2
+          (fun x hx => hl x (List.mem_cons_of_mem _ hx)) h)
+  | _, [], b, _, q, hab, _, _, h => by
+      cases b <;> cases q <;> simp [anyNearOff] at h hab
+  | _, _ :: _, [], _, _, hab, _, _, _ => by simp [BoxOK] at hab
+  | _, _ :: _, _ :: _, [], q, _, hq, _, h => by
+      cases q <;> simp [meshAxes, InAxes, anyNearOff] at hq h
+  | _, _ :: _, _ :: _, _ :: _, [], _, _, _, h => by simp [anyNearOff] at h
 
-/-- **the boundary test fires only on true boundary points**: all levels `≤ 39` -/
-theorem noFalseBoundary_of_levels (a b : List Rat) (hab : BoxOK a b) (c : List (LV × Int))
-    (hlev : ∀ p ∈ c, ∀ x ∈ p.1, x ≤ 39) : NoFalseBoundary a b c := by
+/-- **the per-dimension boundary test fires only on points of the excluded boundary**: all levels `≤ 39` -/
+theorem pointNotZero_false_onBoundary (a b : List Rat) (hab : BoxOK a b) (bd : Flags) (l : LV)
+    (hl : ∀ x ∈ l, x ≤ 39) (q : List Rat) (hq : InAxes (meshAxes a b l bd) q)
+    (hnz : pointNotZero a b bd q = false) : OnBoundary bd a b q := by
+  simp only [pointNotZero, Bool.not_eq_false', Bool.or_eq_true] at hnz
+  rcases hnz with h | h
+  · exact anyNearOff_lo_onBoundary bd a b l q hab hq hl h
+  · exact anyNearOff_hi_onBoundary bd a b l q hab hq hl h
+
+theorem not_onBoundary_of_inGrid : ∀ (bd : Flags) (a b : List Rat) (l : LV) (x : List Rat), BoxOK a b →
+    InGrid bd a b l x → ¬ OnBoundary bd a b x
+  | bd, a :: as, b :: bs, l :: ls, x :: xs, hab, hx, h => by
+      rcases h with ⟨hbd, h⟩ | h
+      · have hx1 := hx.1
+        rw [hbd] at hx1
+        have hint := levelPoints_interior a b hab.1 _ hx1
+        rcases h with h | h
+        · rw [h] at hint; exact lt_irrefl _ hint.1
+        · rw [h] at hint; exact lt_irrefl _ hint.2
+      · exact not_onBoundary_of_inGrid bd.tl as bs ls xs hab.2 hx.2 h
+  | _, [], _, _, _, _, _, h => by simp [OnBoundary] at h
+  | _, _ :: _, [], _, _, _, _, h => by simp [OnBoundary] at h
+  | _, _ :: _, _ :: _, _, [], _, _, h => by simp [OnBoundary] at h
+  | _, _ :: _, _ :: _, [], _ :: _, _, hx, _ => by simp [InGrid] at hx
+
+theorem inAxes_mesh_of_inGrid : ∀ (bd : Flags) (a b : List Rat) (l : LV) (x : List Rat),
+    InGrid bd a b l x → InAxes (meshAxes a b l bd) x
+  | bd, [], [], [], [], _ => trivial
+  | bd, a :: as, b :: bs, l :: ls, x :: xs, h =>
+      ⟨levelPoints_sub_meshAxis a b _ (bd 0) h.1, inAxes_mesh_of_inGrid bd.tl as bs ls xs h.2⟩
+  | bd, [], [], [], _ :: _, h => by simp [InGrid] at h
+  | bd, _ :: _, _ :: _, _ :: _, [], h => by simp [InGrid] at h
+  | bd, [], _ :: _, _, _, h => by simp [InGrid] at h
+  | bd, _ :: _, [], _, _, h => by simp [InGrid] at h
+  | bd, [], [], _ :: _, _, h => by simp [InGrid] at h
+  | bd, _ :: _, _ :: _, [], _, h => by simp [InGrid] at h
+
+/-- no point of a component grid (levels `≤ 39`) is mistaken for a point of the excluded boundary -/
+theorem pointNotZero_of_inGrid (a b : List Rat) (hab : BoxOK a b) (bd : Flags) (l : LV) (hl : ∀ x ∈ l, x ≤ 39)
+    (x : List Rat) (hx : InGrid bd a b l x) : pointNotZero a b bd x = true := by
+  by_contra hne
+  have hnz : pointNotZero a b bd x = false := by simpa using hne
+  exact not_onBoundary_of_inGrid bd a b l x hab hx
+    (pointNotZero_false_onBoundary a b hab bd l hl x (inAxes_mesh_of_inGrid bd a b l x hx) hnz)
+
+/-- **the boundary test fires only on points of the excluded boundary** (any flags, all levels `≤ 39`) -/
+theorem noFalseBoundary_of_levels (a b : List Rat) (hab : BoxOK a b) (bd : Flags) (c : List (LV × Int))
+    (hlev : ∀ p ∈ c, ∀ x ∈ p.1, x ≤ 39) : NoFalseBoundary a b bd c := by
   intro p hp q hq hnz
   rw [mem_cross] at hq
-  simp only [pointNotZero, Bool.false_or, Bool.not_eq_false', Bool.or_eq_true] at hnz
-  rcases hnz with h | h
-  · exact anyNear_lo_onBoundary a b p.1 q hab hq (hlev p hp) h
-  · exact anyNear_hi_onBoundary a b p.1 q hab hq (hlev p hp) h
-
-theorem not_onBoundary_of_inGrid : ∀ (a b : List Rat) (l : LV) (x : List Rat), BoxOK a b →
-    InGrid false a b l x → ¬ OnBoundary a b x
-  | a :: as, b :: bs, l :: ls, x :: xs, hab, hx, h => by
-      have hint := levelPoints_interior a b hab.1 _ hx.1
-      rcases h with h | h | h
-      · rw [h] at hint; exact lt_irrefl _ hint.1
-      · rw [h] at hint; exact lt_irrefl _ hint.2
-      · exact not_onBoundary_of_inGrid as bs ls xs hab.2 hx.2 h
-  | [], _, _, _, _, _, h => by simp [OnBoundary] at h
-  | _ :: _, [], _, _, _, _, h => by simp [OnBoundary] at h
-  | _ :: _, _ :: _, _, [], _, _, h => by simp [OnBoundary] at h
-  | _ :: _, _ :: _, [], _ :: _, _, hx, _ => by simp [InGrid] at hx
-
-theorem inAxes_mesh_of_inGrid (bd : Bool) : ∀ (a b : List Rat) (l : LV) (x : List Rat),
-    InGrid bd a b l x → InAxes (meshAxes a b l bd) x
-  | [], [], [], [], _ => trivial
-  | a :: as, b :: bs, l :: ls, x :: xs, h =>
-      ⟨levelPoints_sub_meshAxis a b _ bd h.1, inAxes_mesh_of_inGrid bd as bs ls xs h.2⟩
-  | [], [], [], _ :: _, h => by simp [InGrid] at h
-  | _ :: _, _ :: _, _ :: _, [], h => by simp [InGrid] at h
-  | [], _ :: _, _, _, h => by simp [InGrid] at h
-  | _ :: _, [], _, _, h => by simp [InGrid] at h
-  | [], [], _ :: _, _, h => by simp [InGrid] at h
-  | _ :: _, _ :: _, [], _, h => by simp [InGrid] at h
-
-/-- no point of a component grid (levels `≤ 39`) is mistaken for a boundary point -/
-theorem pointNotZero_of_inGrid (a b : List Rat) (hab : BoxOK a b) (bd : Bool) (l : LV) (hl : ∀ x ∈ l, x ≤ 39)
-    (x : List Rat) (hx : InGrid bd a b l x) : pointNotZero a b bd x = true := by
-  cases bd
-  · by_contra hne
-    have hnz : pointNotZero a b false x = false := by simpa using hne
-    have hq := inAxes_mesh_of_inGrid false a b l x hx
-    simp only [pointNotZero, Bool.false_or, Bool.not_eq_false', Bool.or_eq_true] at hnz
-    rcases hnz with h | h
-    · exact not_onBoundary_of_inGrid a b l x hab hx (anyNear_lo_onBoundary a b l x hab hq hl h)
-    · exact not_onBoundary_of_inGrid a b l x hab hx (anyNear_hi_onBoundary a b l x hab hq hl h)
-  · simp [pointNotZero]
+  exact pointNotZero_false_onBoundary a b hab bd p.1 (hlev p hp) q hq hnz
 
 /-! ## tensor hats -/
 
@@ -394,52 +396,52 @@ def hatIntegral : List Rat → List Rat → LV → List Nat → Rat
   | _, _, _, _ => 0
 
 /-- `i_d` is the index of a returned node of level `k_d` in every dimension -/
-def HatIdx (bd : Bool) : LV → List Nat → Prop
-  | [], [] => True
-  | k :: ks, i :: is => i ∈ levelIdx k.toNat bd ∧ HatIdx bd ks is
-  | _, _ => False
+def HatIdx : Flags → LV → List Nat → Prop
+  | _, [], [] => True
+  | bd, k :: ks, i :: is => i ∈ levelIdx k.toNat (bd 0) ∧ HatIdx bd.tl ks is
+  | _, _, _ => False
 
-theorem hatVec_PLvec (bd : Bool) : ∀ (a b : List Rat) (k : LV) (i : List Nat), BoxOK a b → a.length = k.length →
+theorem hatVec_PLvec : ∀ (bd : Flags) (a b : List Rat) (k : LV) (i : List Nat), BoxOK a b → a.length = k.length →
     HatIdx bd k i → PLvec a b k (hatVec a b k i)
-  | [], [], [], [], _, _, _ => trivial
-  | a :: as, b :: bs, k :: ks, i :: is, hab, hl, hi =>
-      ⟨hatFn_PLk a b hab.1 _ i, hatVec_PLvec bd as bs ks is hab.2 (by simpa using hl) hi.2⟩
-  | [], _ :: _, _, _, hab, _, _ => by simp [BoxOK] at hab
-  | _ :: _, [], _, _, hab, _, _ => by simp [BoxOK] at hab
-  | [], [], _ :: _, _, _, hl, _ => by simp at hl
-  | _ :: _, _ :: _, [], _, _, hl, _ => by simp at hl
-  | [], [], [], _ :: _, _, _, hi => by simp [HatIdx] at hi
-  | _ :: _, _ :: _, _ :: _, [], _, _, hi => by simp [HatIdx] at hi
+  | bd, [], [], [], [], _, _, _ => trivial
+  | bd, a :: as, b :: bs, k :: ks, i :: is, hab, hl, hi =>
+      ⟨hatFn_PLk a b hab.1 _ i, hatVec_PLvec bd.tl as bs ks is hab.2 (by simpa using hl) hi.2⟩
+  | bd, [], _ :: _, _, _, hab, _, _ => by simp [BoxOK] at hab
+  | bd, _ :: _, [], _, _, hab, _, _ => by simp [BoxOK] at hab
+  | bd, [], [], _ :: _, _, _, hl, _ => by simp at hl
+  | bd, _ :: _, _ :: _, [], _, _, hl, _ => by simp at hl
+  | bd, [], [], [], _ :: _, _, _, hi => by simp [HatIdx] at hi
+  | bd, _ :: _, _ :: _, _ :: _, [], _, _, hi => by simp [HatIdx] at hi
 
-theorem hatVec_zeroEnds (bd : Bool) : ∀ (a b : List Rat) (k : LV) (i : List Nat), BoxOK a b → a.length = k.length →
+theorem hatVec_zeroEnds : ∀ (bd : Flags) (a b : List Rat) (k : LV) (i : List Nat), BoxOK a b → a.length = k.length →
     HatIdx bd k i → ZeroEndsVec bd a b (hatVec a b k i)
-  | [], [], [], [], _, _, _ => trivial
-  | a :: as, b :: bs, k :: ks, i :: is, hab, hl, hi => by
-      refine ⟨?_, hatVec_zeroEnds bd as bs ks is hab.2 (by simpa using hl) hi.2⟩
+  | bd, [], [], [], [], _, _, _ => trivial
+  | bd, a :: as, b :: bs, k :: ks, i :: is, hab, hl, hi => by
+      refine ⟨?_, hatVec_zeroEnds bd.tl as bs ks is hab.2 (by simpa using hl) hi.2⟩
       intro hbd
-      subst hbd
-      have := (mem_levelIdx k.toNat false i).1 hi.1
+      have := (mem_levelIdx k.toNat (bd 0) i).1 hi.1
+      rw [hbd] at this
       simp only [Bool.false_eq_true, if_false] at this
-      exact hatFn_ends a b hab.1 k.toNat i this.1 this.2 false rfl
-  | [], _ :: _, _, _, hab, _, _ => by simp [BoxOK] at hab
-  | _ :: _, [], _, _, hab, _, _ => by simp [BoxOK] at hab
-  | [], [], _ :: _, _, _, hl, _ => by simp at hl
-  | _ :: _, _ :: _, [], _, _, hl, _ => by simp at hl
-  | [], [], [], _ :: _, _, _, hi => by simp [HatIdx] at hi
-  | _ :: _, _ :: _, _ :: _, [], _, _, hi => by simp [HatIdx] at hi
+      exact hatFn_ends a b hab.1 k.toNat i this.1 this.2 (bd 0) hbd
+  | bd, [], _ :: _, _, _, hab, _, _ => by simp [BoxOK] at hab
+  | bd, _ :: _, [], _, _, hab, _, _ => by simp [BoxOK] at hab
+  | bd, [], [], _ :: _, _, _, hl, _ => by simp at hl
+  | bd, _ :: _, _ :: _, [], _, _, hl, _ => by simp at hl
+  | bd, [], [], [], _ :: _, _, _, hi => by simp [HatIdx] at hi
+  | bd, _ :: _, _ :: _, _ :: _, [], _, _, hi => by simp [HatIdx] at hi
 
-theorem trapProd_hatVec (bd : Bool) : ∀ (a b : List Rat) (k : LV) (i : List Nat), BoxOK a b → a.length = k.length →
+theorem trapProd_hatVec : ∀ (bd : Flags) (a b : List Rat) (k : LV) (i : List Nat), BoxOK a b → a.length = k.length →
     HatIdx bd k i → trapProd bd a b k (hatVec a b k i) = hatIntegral a b k i
-  | [], [], [], [], _, _, _ => rfl
-  | a :: as, b :: bs, k :: ks, i :: is, hab, hl, hi => by
+  | bd, [], [], [], [], _, _, _ => rfl
+  | bd, a :: as, b :: bs, k :: ks, i :: is, hab, hl, hi => by
       simp only [hatVec, trapProd, hatIntegral]
-      rw [trap1_hatFn a b hab.1 k.toNat i bd hi.1, trapProd_hatVec bd as bs ks is hab.2 (by simpa using hl) hi.2]
-  | [], _ :: _, _, _, hab, _, _ => by simp [BoxOK] at hab
-  | _ :: _, [], _, _, hab, _, _ => by simp [BoxOK] at hab
-  | [], [], _ :: _, _, _, hl, _ => by simp at hl
-  | _ :: _, _ :: _, [], _, _, hl, _ => by simp at hl
-  | [], [], [], _ :: _, _, _, hi => by simp [HatIdx] at hi
-  | _ :: _, _ :: _, _ :: _, [], _, _, hi => by simp [HatIdx] at hi
+      rw [trap1_hatFn a b hab.1 k.toNat i (bd 0) hi.1, trapProd_hatVec bd.tl as bs ks is hab.2 (by simpa using hl) hi.2]
+  | bd, [], _ :: _, _, _, hab, _, _ => by simp [BoxOK] at hab
+  | bd, _ :: _, [], _, _, hab, _, _ => by simp [BoxOK] at hab
+  | bd, [], [], _ :: _, _, _, hl, _ => by simp at hl
+  | bd, _ :: _, _ :: _, [], _, _, hl, _ => by simp at hl
+  | bd, [], [], [], _ :: _, _, _, hi => by simp [HatIdx] at hi
+  | bd, _ :: _, _ :: _, _ :: _, [], _, _, hi => by simp [HatIdx] at hi
 
 /-! ## the levels of the standard scheme are bounded by `lmax` -/
 
